@@ -16,7 +16,7 @@ from pathlib import Path
 VERIF = Path(__file__).resolve().parent.parent
 REPO = Path(os.environ.get("VERIF_REPO", "/repo")).resolve()
 CACHE = Path(os.environ.get("VERIF_CACHE", str(VERIF / ".cache")))
-EVIDENCE_DIR = VERIF / "evidence"
+EVIDENCE_DIR = Path(os.environ.get("VERIF_EVIDENCE_DIR", str(VERIF / "evidence")))   # seedrun redirects this
 REPLAY_DIR = VERIF / "replays"
 SHM = Path("/dev/shm") if Path("/dev/shm").is_dir() else Path("/tmp")
 NCPU = int(os.environ.get("VERIF_JOBS", str(os.cpu_count() or 4)))
